@@ -1,7 +1,8 @@
 """C06 -- deterministic partitioners give the same partition for every thread count."""
 PROP = dict(
     bin="c06",
-    run_targets=["Run/RunC06.vo"],
+    run_targets=["Run/RunC06.vo", "Run/RunKM.vo"],
+    extra_bins=[dict(bin="c06km", cases=dict(quick=640, thorough=3200))],
     prop_targets=["Properties/C06.vo"],
     cases=dict(quick=440, thorough=6000),
     level="proof",
